@@ -42,6 +42,8 @@ def run(ctx):
     def describe(s):
         chain = ' -> '.join(x.split('::')[-1] if '{closure' not in x else x.split('::')[-2] + '::{closure}' for x in G.chain(parent, s.fn))
         return 'peer-reachable panic source (%s) via %s' % (s.kind, chain)
+    import controls
+    controls.panic_cone(ctx)
     cone.judge(ctx, 'H1.panic-source', groups, triage, describe)
     if not srcs:
         ctx.ok('H1.panic-source', 'none', '', 'no panic source in the cone')
